@@ -168,6 +168,19 @@ pub fn spec_lex(wa: &[u64], la: usize, wb: &[u64], lb: usize) -> std::cmp::Order
     la.cmp(&lb)
 }
 
+/// a well-formed string of a FIXED length with symbolic contents (symbolic lengths exhaust CBMC's memory)
+fn fixed_dna<S: Src>(s: &mut S, len: usize) -> (Vec<u64>, usize) {
+    let nw = (len + 31) / 32;
+    let mut w = Vec::new();
+    let mut i = 0;
+    while i < nw {
+        w.push(s.u64());
+        i += 1;
+    }
+    s.assume(spec_wf(&w, len));
+    (w, len)
+}
+
 fn any_dna<S: Src>(s: &mut S, max_words: usize) -> (Vec<u64>, usize) {
     let len = s.usize();
     s.assume(len <= 32 * max_words);
@@ -242,14 +255,13 @@ fn view_ok(d: &DnaString) -> bool {
 
 /// BOUNDED (prefix <= 32 bases built directly as a well-formed value, then <= 37 appended items so that the
 /// per-base path, a whole 32-chunk and a remainder all occur): extend appends exactly the items.
-pub fn c_extend_b<S: Src>(s: &mut S) {
-    let (w, len) = any_dna(s, 1);
+pub fn c_extend_b<S: Src, const LEN: usize, const N: usize>(s: &mut S) {
+    let (w, len) = fixed_dna(s, LEN);
     let buf: [u8; 37] = draw_bytes(s, true);
-    let n = s.usize();
-    s.assume(n <= 37);
+    let n = N;
     let j = s.usize();
     s.assume(j < len + n);
-    s.cover(len == 30 && n == 37);
+    s.cover(true);
     let old = w.clone();
     let mut d = DnaString { storage: w, len };
     d.extend(buf[..n].iter().cloned());
@@ -260,12 +272,11 @@ pub fn c_extend_b<S: Src>(s: &mut S) {
 }
 
 /// BOUNDED (<= 40 bases): rc / reverse / to_bytes / to_ascii_vec agree with the plain vector.
-pub fn c_rc_reverse_b<S: Src>(s: &mut S) {
-    let (w, len) = any_dna(s, 2);
-    s.assume(len <= 40);
+pub fn c_rc_reverse_b<S: Src, const LEN: usize>(s: &mut S) {
+    let (w, len) = fixed_dna(s, LEN);
     let j = s.usize();
     s.assume(j < len);
-    s.cover(len == 40);
+    s.cover(true);
     let d = DnaString { storage: w.clone(), len };
     let r = crate::Mer::rc(&d);
     chk!(s, r.len == len && view_ok(&r), "rc keeps the length and is well formed");
@@ -275,12 +286,11 @@ pub fn c_rc_reverse_b<S: Src>(s: &mut S) {
     chk!(s, spec_base(&v.storage, j) == spec_base(&w, len - 1 - j), "reverse: position i <-> n-1-i");
 }
 
-pub fn c_to_bytes_b<S: Src>(s: &mut S) {
-    let (w, len) = any_dna(s, 2);
-    s.assume(len <= 40);
+pub fn c_to_bytes_b<S: Src, const LEN: usize>(s: &mut S) {
+    let (w, len) = fixed_dna(s, LEN);
     let j = s.usize();
     s.assume(j < len);
-    s.cover(len == 33);
+    s.cover(true);
     let d = DnaString { storage: w.clone(), len };
     let b = d.to_bytes();
     let a = d.to_ascii_vec();
@@ -291,14 +301,12 @@ pub fn c_to_bytes_b<S: Src>(s: &mut S) {
 
 /// BOUNDED (<= 70 bytes: zero, one and two vector blocks plus a tail; vector path taken and not taken):
 /// from_acgt_bytes maps every byte like base_to_bits, whichever internal path handles it.
-pub fn c_from_acgt_bytes_b<S: Src>(s: &mut S) {
+pub fn c_from_acgt_bytes_b<S: Src, const N: usize>(s: &mut S) {
     let buf: [u8; 70] = draw_bytes(s, false);
-    let n = s.usize();
-    s.assume(n <= 70);
+    let n = N;
     let j = s.usize();
     s.assume(j < n);
-    s.cover(n == 70);
-    s.cover(n == 64);
+    s.cover(true);
     let d = DnaString::from_acgt_bytes(&buf[..n]);
     chk!(s, d.len == n, "from_acgt_bytes: one base per byte");
     chk!(s, view_ok(&d), "from_acgt_bytes result is well formed");
@@ -312,14 +320,13 @@ pub fn c_from_acgt_bytes_b<S: Src>(s: &mut S) {
 /// BOUNDED (<= 6 bytes): the strict constructor returns exactly the maximal ACGT runs.
 pub fn c_from_dna_only_b<S: Src>(s: &mut S) {
     let buf: [u8; 6] = draw_bytes(s, false);
-    let n = s.usize();
-    s.assume(n <= 6);
+    let n = 5usize;
     let mut i = 0;
     while i < 6 {
         s.assume(buf[i] < 128); // ASCII text (a &str)
         i += 1;
     }
-    s.cover(n == 6);
+    s.cover(true);
     let text = match std::str::from_utf8(&buf[..n]) {
         Ok(t) => t,
         Err(_) => return,
@@ -367,11 +374,10 @@ pub fn c_from_dna_only_b<S: Src>(s: &mut S) {
 pub fn c_packed_add_b<S: Src>(s: &mut S) {
     let a: [u8; 5] = draw_bytes(s, true);
     let b: [u8; 5] = draw_bytes(s, true);
-    let na = s.usize();
-    let nb = s.usize();
-    s.assume(na <= 5 && nb <= 5);
+    let na = 5usize;
+    let nb = 3usize;
     let j = s.usize();
-    s.cover(na == 5 && nb == 5);
+    s.cover(true);
     let mut set = PackedDnaStringSet::new();
     set.add(a[..na].iter());
     set.add(b[..nb].iter());
@@ -400,9 +406,11 @@ pub fn c_dna_eq_ord_hash_b1<S: Src>(s: &mut S) {
     chk!(s, (a == b) == (want == std::cmp::Ordering::Equal), "DnaString == holds exactly for equal base sequences");
 }
 
-harness!(d_extend_b, c_extend_b, unwind 40);
-harness!(d_rc_reverse_b, c_rc_reverse_b, unwind 42);
-harness!(d_to_bytes_b, c_to_bytes_b, unwind 42);
+harness!(d_extend_b_30_37, c_extend_b::<_, 30, 37>, unwind 40);
+harness!(d_extend_b_0_33, c_extend_b::<_, 0, 33>, unwind 40);
+harness!(d_extend_b_32_1, c_extend_b::<_, 32, 1>, unwind 40);
+harness!(d_rc_reverse_b_33, c_rc_reverse_b::<_, 33>, unwind 42);
+harness!(d_to_bytes_b_33, c_to_bytes_b::<_, 33>, unwind 42);
 harness!(d_from_dna_only_b, c_from_dna_only_b, unwind 8);
 harness!(d_packed_add_b, c_packed_add_b, unwind 8);
 harness!(d_dna_eq_ord_hash_b1, c_dna_eq_ord_hash_b1, unwind 36);
@@ -418,8 +426,18 @@ fn nondet_feature() -> bool {
 #[kani::stub(std::arch::x86_64::_mm256_shuffle_epi8, crate::bitops_avx2::verif::model_shuffle_epi8)]
 #[kani::stub(std::arch::x86_64::_mm256_testc_si256, crate::bitops_avx2::verif::model_testc_si256)]
 #[kani::stub(std_detect::detect::__is_feature_detected::avx2, nondet_feature)]
-pub fn d_from_acgt_bytes_b() {
-    c_from_acgt_bytes_b(&mut crate::verif::src::KSrc)
+pub fn d_from_acgt_bytes_b_70() {
+    c_from_acgt_bytes_b::<_, 70>(&mut crate::verif::src::KSrc)
+}
+
+#[cfg(kani)]
+#[kani::proof]
+#[kani::unwind(72)]
+#[kani::stub(std::arch::x86_64::_mm256_shuffle_epi8, crate::bitops_avx2::verif::model_shuffle_epi8)]
+#[kani::stub(std::arch::x86_64::_mm256_testc_si256, crate::bitops_avx2::verif::model_testc_si256)]
+#[kani::stub(std_detect::detect::__is_feature_detected::avx2, nondet_feature)]
+pub fn d_from_acgt_bytes_b_31() {
+    c_from_acgt_bytes_b::<_, 31>(&mut crate::verif::src::KSrc)
 }
 harness!(d_count_diff, c_count_diff, unwind 34);
 harness!(d_slice_hamming_1024, c_slice_hamming_1024, unwind 1027);
@@ -429,10 +447,13 @@ harness!(d_slice_render_3, c_slice_render_3, unwind 18);
 pub fn replay(name: &str, s: &mut crate::verif::src::RSrc) -> bool {
     match name {
         "d_count_diff" => c_count_diff(s),
-        "d_extend_b" => c_extend_b(s),
-        "d_rc_reverse_b" => c_rc_reverse_b(s),
-        "d_to_bytes_b" => c_to_bytes_b(s),
-        "d_from_acgt_bytes_b" => c_from_acgt_bytes_b(s),
+        "d_extend_b_30_37" => c_extend_b::<_, 30, 37>(s),
+        "d_extend_b_0_33" => c_extend_b::<_, 0, 33>(s),
+        "d_extend_b_32_1" => c_extend_b::<_, 32, 1>(s),
+        "d_rc_reverse_b_33" => c_rc_reverse_b::<_, 33>(s),
+        "d_to_bytes_b_33" => c_to_bytes_b::<_, 33>(s),
+        "d_from_acgt_bytes_b_70" => c_from_acgt_bytes_b::<_, 70>(s),
+        "d_from_acgt_bytes_b_31" => c_from_acgt_bytes_b::<_, 31>(s),
         "d_from_dna_only_b" => c_from_dna_only_b(s),
         "d_packed_add_b" => c_packed_add_b(s),
         "d_dna_eq_ord_hash_b1" => c_dna_eq_ord_hash_b1(s),
